@@ -301,6 +301,29 @@ fn run(ctx: &mut Ctx) {
             });
         }
     }
+    // skip patterns: every arrangement of in-use / unused / unknown entries over 3 and 4 entries
+    ctx.bound("skip_patterns", "every arrangement of {in-use (1), unused (0), unknown (12), processor-specific (0x70000000)} over 3 and 4 entries, both layouts, string table = entry 0 and = last entry");
+    for layout in [64u32, 40] {
+        for n in [3u32, 4] {
+            for code in 0..4u32.pow(n) {
+                let mut types = vec![];
+                let mut c = code;
+                for _ in 0..n {
+                    types.push([1u32, 0, 12, 0x7000_0000][(c % 4) as usize]);
+                    c /= 4;
+                }
+                for shndx in [0, n - 1] {
+                    let s = Spec { layout, n, entsize: layout, shndx, b: (n * layout) as usize, types: types.clone() };
+                    let s2 = s.clone();
+                    ctx.leaf(|| jspec("skip-pattern", &s2), |ctx| {
+                        ctx.state_direct();
+                        ctx.nontrivial();
+                        exec(ctx, &arena, &st, &s);
+                    });
+                }
+            }
+        }
+    }
     // fitting space: all type classes per entry
     let nmax = if ctx.quick() { 2 } else { 3 };
     ctx.bound("fitting", format!("every fitting tag with 0..={} entries, both layouts, every raw type class per entry (20 classes), every string-table index 0..={}, 0 or 9 spare section bytes", nmax, nmax));
@@ -333,3 +356,4 @@ fn run(ctx: &mut Ctx) {
 fn main() {
     main_wrap("C19", run);
 }
+
